@@ -5,6 +5,7 @@ package main
 
 import (
 	"fmt"
+	"math"
 	"math/big"
 	"sort"
 	"strconv"
@@ -279,6 +280,17 @@ func (b *builder) gen1(g *SX) *rapid.Generator[any] {
 		lo, _ := strconv.ParseInt(g.List[1].Atom, 10, 64)
 		hi, _ := strconv.ParseInt(g.List[2].Atom, 10, 64)
 		return asAny(rapid.Int64Range(lo, hi))
+	case "f64":
+		// bounds and value are IEEE-754 bit patterns
+		lo, _ := strconv.ParseUint(g.List[1].Atom, 10, 64)
+		hi, _ := strconv.ParseUint(g.List[2].Atom, 10, 64)
+		return asAny(rapid.Map(rapid.Float64Range(math.Float64frombits(lo), math.Float64frombits(hi)),
+			func(f float64) any { return fromBig(toBig(math.Float64bits(f))) }))
+	case "f32":
+		lo, _ := strconv.ParseUint(g.List[1].Atom, 10, 32)
+		hi, _ := strconv.ParseUint(g.List[2].Atom, 10, 32)
+		return asAny(rapid.Map(rapid.Float32Range(math.Float32frombits(uint32(lo)), math.Float32frombits(uint32(hi))),
+			func(f float32) any { return int64(math.Float32bits(f)) }))
 	case "sampled":
 		n := atoi(g.List[1])
 		sl := make([]int64, n)
